@@ -1252,6 +1252,7 @@ def _offset_common(ctx, cmd, pid, n, ent, classify):
         if not res.startswith('OK'):
             pending.append(cid)
     deeper = fw.recheck_deeper(ctx['root'], ctx['outdir'], pending, fuel=9, timeout=_tier(ctx, 900, 3600)) if pending else {}
+    known_seen = {}
     for cid in pending:
         m = meta[cid]
         kind = cid[-1]
@@ -1290,12 +1291,26 @@ def _offset_common(ctx, cmd, pid, n, ent, classify):
                 sets = [R, I] if delta > 0 else [I, R]
                 pred = lambda w: w[0] == 0 or w[1] != 0
                 txt = 'the result reaches farther than k*delta + tol from the input region' if delta > 0 else 'interior points farther than k|delta| + tol from the boundary are missing'
-        conf = fw.confirm_region(sets, band, r2, pred, fw.parse_fail(res))
+        # a rejection that already carries the signature of a listed finding (classified from the checker's own failing
+        # point) is confirmed by exact re-evaluation only for the first few cases per finding: thousands of them occur
+        pre = None
+        try:
+            pre = classify(m, None, kind, res)
+        except TypeError:
+            pre = None
+        if pre is not None and known_seen.get(pre, 0) >= 25:
+            conf = None
+        else:
+            conf = fw.confirm_region(sets, band, r2, pred, fw.parse_fail(res))
         key = fw.input_key(e)
         try:
             kc = classify(m, conf, kind, res)
         except TypeError:
             kc = classify(m, conf, kind)
+        if kc is None and pre is not None and conf is None:
+            kc = pre
+        if kc is not None:
+            known_seen[kc] = known_seen.get(kc, 0) + 1
         v = {'key': kc or key, 'kind': 'offset-' + kind, 'detail': {'corpus_entry': e, 'out': R, 'checker': res, 'confirmed': conf}}
         if conf:
             v['text'] = '%s: %s at point (%s, %s), windings %s (delta %.3f, join %s%s)' % (pid, txt, conf['point'][0], conf['point'][1], conf['windings'], delta, m.get('jt'), (', end %s' % m.get('et')) if is_open else '')
